@@ -844,6 +844,11 @@ impl<'a> Run<'a> {
         }
         // bounded state
         let pr = self.pw.w.conns[k].c.verif_probe();
+        // whatever the peer advertises (max_udp_payload_size may be any value from 1200 up to 2^62-1), the
+        // path MTU estimate never falls below the 1200 bytes every QUIC path supports
+        if pr.current_mtu < 1200 {
+            return Err(CaseOut::fail("c13/mtu-below-1200", format!("after {what}: the victim's path MTU estimate is {} (peer max_udp_payload_size {})", pr.current_mtu, self.c.tp.max_udp)));
+        }
         let inj = self.pw.injected_dgrams as usize;
         let bad = |name: &str, v: usize, bound: usize| -> Option<CaseOut> {
             if v > bound {
@@ -1556,7 +1561,7 @@ fn arb_ok_tp() -> impl Strategy<Value = PuppetTp> {
         (prop_oneof![0u64..4, Just(64u64), Just(1u64 << 60)], prop_oneof![0u64..4, Just(64u64), Just(1u64 << 60)]),
         prop_oneof![2u64..9, Just(V62)],
         prop_oneof![Just(0u64), 1u64..20_000, Just(V62)],
-        prop_oneof![Just(1200u64), 1200u64..1500, Just(65527u64), Just(V62)],
+        prop_oneof![2 => Just(1200u64), 2 => 1200u64..1500, 1 => Just(65527u64), 1 => Just(V62), 2 => 65_528u64..70_000, 1 => prop_oneof![Just(1u64 << 16), Just((1u64 << 16) + 1199), Just((1u64 << 32) + 1300), Just((1u64 << 17) + 400)]],
         prop_oneof![Just(None), Just(Some(0u64)), (1u64..70_000).prop_map(Some), Just(Some(V62))],
         prop_oneof![3 => Just(None), 2 => (0u64..30_000).prop_map(Some), 1 => (30_000u64..16_000_000).prop_map(Some)],
         prop_oneof![3 => Just(None), 1 => (0u64..16384).prop_map(Some)],
